@@ -254,6 +254,24 @@ def check_C16(chk):
             chk.violation("binding-%s-%s" % (kind, f["style"]), "clause on parameter %s (position %d of mock(%s)), kind %s, actuals %s: observed [%s]%s, binding by name requires [%s]" % (
                 pn, f["names"].index(pn), f["text"], kind, vv, got, " (" + san + ")" if san else "", want), dict(rp, sanitizer=san))
         chk.sample({"case": il, "mock_text": f["text"], "result": got}, limit=6)
+    # ---- parameter names that are object-like macros, clauses through the public macros (when, will_capture_parameter,
+    # will_set_contents_of_output_parameter): bound to the argument written with the same name
+    qlines, qwant = [], []
+    for fid, pos in ((0, 0), (1, 1)):
+        for v0, v1 in ((7, 9), (9, 7), (5, 5)):
+            vj = (v0, v1)[pos]
+            for expected in (vj, vj + 1):
+                qlines.append("Q %d 0 %d %d %d" % (fid, expected, v0, v1)); qwant.append("1 0 0" if expected == vj else "0 1 0")
+            qlines.append("Q %d 1 0 %d %d" % (fid, v0, v1)); qwant.append("0 0 %d" % vj)
+        qlines.append("Q %d 2 0 0 0" % fid); qwant.append("0 0 %d" % (1 << pos))
+    for il, want, (o, san) in zip(qlines, qwant, CC.run_vm(drv, qlines)):
+        chk.case(il)
+        chk.count("kind:Q")
+        got = "CRASH" if san is not None else o
+        if got != want:
+            chk.violation("binding-macro-name", "a clause written with a parameter name that is an object-like macro (mock(mac_count, other) / mock(first, mac_ptr), case %s): observed [%s]%s, binding by the name as written requires [%s]" % (
+                il, got, " (" + san + ")" if san else "", want),
+                {"case": il, "how": "python3 tools/vcheck.py C16 regenerates _work/gen-params/params_tu.inc (see MACRO_NAMED in tools/gen_params.py); echo '<case>' | ASAN_OPTIONS=detect_leaks=0 _work/bin-asan/params_driver", "sanitizer": san})
     return chk.finish()
 
 
